@@ -749,7 +749,7 @@ class Converter(utils.ContextWeakrefMixin):
   def _frozenset_literal_to_value(self, pyval: frozenset[Any]):
     """Convert a literal frozenset to an abstract value."""
     instance = abstract.Instance(self.frozenset_type, self.ctx)
-    for element in pyval:
+    for element in sorted(pyval, key=lambda e: (type(e).__name__, repr(e))):
       instance.merge_instance_type_parameter(
           self.ctx.root_node,
           abstract_utils.T,
